@@ -151,9 +151,114 @@ static bool on_stuck(std::string& key, std::string& what, std::string& wit) {
     return proved;
 }
 
+
+// ------------------------------------------------------------------ scripted admission rounds (one vCPU)
+// "after the last holder unlocks, a waiting writer or all waiting readers are admitted", also when a writer that
+// was queued in front of those readers gave up meanwhile. One vCPU, so the verdict is in logical steps: a woken
+// reader is READY and runs at the holder's next yield; a reader that is still blocked after many yields of the
+// admitted ones (who keep holding the lock) was not woken.
+namespace script {
+struct Th { RW* L; int mode; int how; std::atomic<int> calling{0}, inside{0}, ret{99}, err{0}, finished{0}; std::atomic<thread*> th{nullptr}; };
+static std::atomic<int> g_inside{0}, g_release{0};
+static vh::NamedCounter c_rounds("script_rounds"), c_gaveup("script_writer_gave_up"), c_batch("script_reader_batches_admitted");
+static void* locker(void* a) {
+    Th& t = *(Th*)a;
+    t.th.store(CURRENT, vh::MO);
+    t.calling.store(1, vh::MO);
+    int ret = t.how == 1 ? t.L->lock(t.mode, Timeout(3000)) : t.L->lock(t.mode, Timeout());
+    t.err.store(errno, vh::MO); t.ret.store(ret, vh::MO);
+    if (ret == 0) {
+        enter(*t.L, t.mode);
+        t.inside.store(1, vh::MO); g_inside.fetch_add(1, vh::MO);
+        while (!g_release.load(vh::MO)) thread_usleep(50);
+        g_inside.fetch_sub(1, vh::MO);
+        leave(*t.L, t.mode);
+    }
+    t.finished.store(1, vh::MO);
+    vh::progress();
+    return nullptr;
+}
+static void settle(int yields = 40) { for (int i = 0; i < yields; ++i) { thread_usleep(20); vh::progress(); } }
+static int run(vh::Rng& r) {
+    int rounds = vh::args().thorough() ? 400 : 120;
+    if (vh::is_tsan()) rounds /= 3;
+    rounds = std::max<int>(10, rounds / vh::args().shape_div());
+    using namespace photon::verif;
+    vh::arm_stalls(r, {P_RWLOCK_UNLOCK, P_WAITQ_RESUME, P_PRELOCKED_INTERRUPT, P_RESUME_BEFORE_LOCK, P_MUTEX_UNLOCK});
+    vh::config("section", "admission-script"); vh::config("vcpus", 1); vh::config("rounds", rounds);
+    vh::start_supervisor([](std::string& k, std::string& w, std::string&) { k = "rwlock-script"; w = "script made no progress"; return false; });
+    vh::VCpus vc;
+    vc.run(1, nullptr, [&](int) {
+        for (int round = 0; round < rounds; ++round) {
+            RW L; L.q = vh::args().has("kind") ? vh::args().gets("kind", "") == "qrwlock" : r.chance(1, 3);
+            if (L.q) L.b = new qrwlock; else L.a = new rwlock;
+            int variant = r.below(4);       // 0,1: writer in front gives up (timeout / interrupt); 2: holder is a writer; 3: queued writer is admitted first
+            int k = r.range(2, 5);
+            int holder_mode = variant == 2 ? WLOCK : RLOCK;
+            g_inside.store(0); g_release.store(0);
+            if (L.lock(holder_mode, Timeout()) != 0) vh::machinery_failure("script: free lock refused");
+            enter(L, holder_mode);
+            std::vector<Th*> ths; std::vector<join_handle*> jh;
+            Th* W = nullptr;
+            auto start = [&](int mode, int how) {
+                auto t = new Th; t->L = &L; t->mode = mode; t->how = how; ths.push_back(t);
+                jh.push_back(thread_enable_join(thread_create(locker, t, 128 * 1024)));
+                while (!t->calling.load(vh::MO)) thread_yield();
+                thread_yield();
+                return t;
+            };
+            if (variant != 2) W = start(WLOCK, variant == 0 ? 1 : 0);
+            std::vector<Th*> R;
+            for (int i = 0; i < k; ++i) R.push_back(start(RLOCK, 0));
+            settle(10);
+            std::string tag = std::string(L.name()) + (variant == 0 ? ":after-writer-timed-out" : variant == 1 ? ":after-writer-was-interrupted"
+                                                        : variant == 2 ? ":after-writer-unlocked" : ":after-queued-writer-finished");
+            if (variant == 0) { while (!W->finished.load(vh::MO)) { thread_usleep(200); vh::progress(); } }
+            if (variant == 1) { thread_interrupt(W->th.load(vh::MO), EINTR); while (!W->finished.load(vh::MO)) { thread_usleep(50); vh::progress(); } }
+            if (variant <= 1) {
+                if (W->ret.load() == 0) vh::violation("exclusion/writer-with-readers:" + std::string(L.name()), "a write lock was granted while a reader held the lock", "null");
+                c_gaveup.add();
+            }
+            int in0 = 0; for (auto t : R) in0 += t->inside.load(vh::MO);     // a lock may let readers pass a waiting writer
+            leave(L, holder_mode);
+            if (variant == 3 && in0 == 0) {             // the queued writer goes first and alone; the readers follow when it unlocks
+                settle(20);
+                if (!W->inside.load(vh::MO))
+                    vh::violation("admission/waiting-writer-not-admitted:" + tag, "the last reader unlocked and the writer at the head of the queue was not admitted", "null");
+                else if (g_inside.load(vh::MO) != 1)
+                    vh::violation("exclusion/writer-with-readers:" + std::string(L.name()), "readers were admitted together with the queued writer", "null");
+                // let only the writer go: readers still wait for g_release, so release is per thread here
+            }
+            if (variant != 3) {
+                settle(40);
+                int in = 0; for (auto t : R) in += t->inside.load(vh::MO);
+                if (in != k)
+                    vh::violation("admission/waiting-readers-not-all-admitted:" + tag,
+                                  "the last holder unlocked, no writer is waiting, and some of the readers that were waiting stay blocked while the admitted ones hold the lock",
+                                  vh::JObj().kv("waiting_readers", k).kv("admitted", in).kv("lock", L.name()).str());
+                else c_batch.add();
+            }
+            g_release.store(1, vh::MO);
+            for (auto h : jh) thread_join(h);
+            for (auto t : R) if (t->ret.load() != 0) vh::violation("admission/untimed-read-lock-failed:" + tag, "an untimed, uninterrupted read lock failed", vh::JObj().kv("errno", t->err.load()).str());
+            for (auto t : ths) delete t;
+            if (L.lock(WLOCK, Timeout(0)) != 0)
+                vh::violation(std::string("noop/write-lock-refused-at-quiescence:") + L.name(), "after all holders unlocked, a write lock is refused", "null");
+            else L.unlock();
+            if (L.q) delete L.b; else delete L.a;
+            c_rounds.add(); vh::event(k + 2);
+        }
+    });
+    vh::set_sig("script|" + std::to_string(vh::log2bucket(c_gaveup.get())) + "|" + std::to_string(vh::log2bucket(c_batch.get())), c_batch.get() > 0 && c_gaveup.get() > 0);
+    vh::sample(vh::JObj().kv("section", "admission-script").kv("rounds", c_rounds.get()).kv("writer_gave_up_rounds", c_gaveup.get()).kv("reader_batches_admitted", c_batch.get()).str());
+    return vh::finish();
+}
+}  // namespace script
+
 int main(int argc, char** argv) {
     vh::init(argc, argv);
     vh::Rng r(vh::args().xseed());
+    if (vh::args().has("section") ? vh::args().gets("section", "") == "script" : vh::args().exec % 8 == 6) return script::run(r);
     int nv = vh::args().geti("vcpus", r.pick({1, 2, 2, 3, 4}));
     int tpv = r.range(2, 8);
     g_ops = vh::args().geti("ops", vh::args().thorough() ? 15000 : 4000);
